@@ -451,6 +451,7 @@ def align_variable_names_with_convention(
         for refnode in _get_uses_of(node, ast_tree, source):
             renamings[refnode].add(substitute)
 
+    accessed_attributes = {node.attr for node in core.walk(ast_tree, ast.Attribute)}
     while funcdefs or classdefs:
         for partial_tree in classdefs.copy():
             classdefs.remove(partial_tree)
@@ -464,7 +465,12 @@ def align_variable_names_with_convention(
             for node in parsing.iter_funcdefs(partial_tree):
                 name = node.name
                 # Don't rename magic members, don't rename if there is inheritance.
-                if partial_tree.bases or parsing.is_magic_method(node):
+                # Don't rename members accessed as obj.name, these accesses cannot be renamed.
+                if (
+                    partial_tree.bases
+                    or parsing.is_magic_method(node)
+                    or name in accessed_attributes
+                ):
                     renamings[node] = {name}
                 funcdefs.append(node)
                 substitute = style.rename_variable(
@@ -476,7 +482,12 @@ def align_variable_names_with_convention(
             for node in parsing.iter_assignments(partial_tree):
                 name = node.id
                 # Don't rename magic members, don't rename if there is inheritance.
-                if partial_tree.bases or (name.startswith("__") and name.endswith("__")):
+                # Don't rename members accessed as obj.name, these accesses cannot be renamed.
+                if (
+                    partial_tree.bases
+                    or (name.startswith("__") and name.endswith("__"))
+                    or name in accessed_attributes
+                ):
                     renamings[node] = {name}
                 substitute = style.rename_variable(
                     name, private=parsing.is_private(name), static=False
